@@ -25,6 +25,7 @@ C14.roundtrip interprets TimexInference.infer and TimexFormat.format over abstra
 import ast
 import builtins
 import itertools
+import re
 import string
 
 from .. import rx
@@ -2265,6 +2266,37 @@ def rule_time_plumbing(cx, chk):
              'two Timex objects share their time of day: %(got)s - state created once (a default argument, a class attribute) '
              'is installed in every instance, so parsing one TIMEX changes what another one formats to')
 
+    # two objects whose time of day starts from the same value (the backing object is created as Time(v, 0, 0) /
+    # Time(0, v, 0) / Time(0, 0, v) by the first setter that runs): a constructor that hands out a cached instance
+    # makes them one object
+    for k, p in enumerate(parts):
+        for v in (10, 0):
+            def same(p=p, k=k, v=v):
+                a = new()
+                write(a, p, v)
+                others = [q for q in parts if q != p]
+                write(a, others[0], 31)
+                write(a, others[1], 47)
+                want_a = read(a)
+                b = new()
+                write(b, p, v)
+                want_b = tuple(v if q == p else 0 for q in parts)
+                return read(a) == want_a and read(b) == want_b, 'first object %s (was %s), second object %s' % (
+                    read(a), want_a, read(b))
+            scenario('two Timex objects: a.%s = %d and the other two components set, then b.%s = %d' % (p, v, p, v),
+                     'a unchanged, b starts at 0 elsewhere', same,
+                     'two Timex objects whose time of day starts from the same value share it: %(got)s - the object behind '
+                     'hour/minute/second is mutated in place by the setters, so it must be a fresh one per Timex')
+
+    def sequence_same_hour():
+        a = it.instantiate(tcls, ['T10:30'], {}, None)
+        it.instantiate(tcls, ['T10:45:10'], {}, None)
+        w = it.call_value(it.getattr(a, 'timex_value', None, None), [], {}, None)
+        return w == 'T10:30', w
+    scenario("Timex('T10:30'), then Timex('T10:45:10') is parsed, then the first one's timex_value()", "'T10:30'",
+             sequence_same_hour, "after parsing 'T10:45:10' the earlier Timex('T10:30') formats as %(got)r: two TIMEX in the "
+                                 'same hour share their time of day')
+
     def sequence():
         it.instantiate(tcls, ['T10:30:45'], {}, None)
         b = it.instantiate(tcls, ['T08'], {}, None)
@@ -2274,28 +2306,225 @@ def rule_time_plumbing(cx, chk):
              "after parsing 'T10:30:45', parsing 'T08' formats as %(got)r: the second object carries the first one's minutes "
              'and seconds')
 
-    # fixed_format_number pads on the left with zeros to the given width
+    rule_pad(cx, chk)
+
+
+# the (field, width) classes of the TIMEX grammar the property quantifies over: years 0001-9999 in four digits, every
+# other calendar / clock field in two (that the templates pass these widths is C14.template's business)
+PAD_CLASSES = ((4, range(1, 10000), 'year 1..9999'), (2, range(0, 60), 'month/day/week/hour/minute/second 0..59'))
+
+
+def pad_reference(n, size):
+    """decimal digits of n, left-padded with '0' to `size` (written without str.rjust / zfill / % on purpose)"""
+    digits = ''
+    m = n
+    while True:
+        digits = '0123456789'[m % 10] + digits
+        m //= 10
+        if m == 0:
+            break
+    return '0' * max(0, size - len(digits)) + digits
+
+
+def tabulate_pad(it, mod, fn, c):
+    """run the function as written on every (n, size) of PAD_CLASSES -> first difference per class:
+    [(size, label, count, None | (n, got, want))]"""
+    oi = _oi()
+    out = []
+    for size, dom, label in PAD_CLASSES:
+        bad = None
+        for n in dom:
+            try:
+                got = it.call_function(oi.FuncRef(mod, fn, c), [n, size], {}, None)
+            except oi.PyExc as ex:
+                got = 'raises %s' % ex
+            want = pad_reference(n, size)
+            if got != want or type(got) is not str:
+                bad = (n, got, want)
+                break
+        out.append((size, label, len(dom), bad))
+    return out
+
+
+def rule_pad(cx, chk):
+    """TimexDateHelpers.fixed_format_number, interpreted as written (whatever its body is: rjust, zfill, %-format,
+    f-string, a precomputed table, ...), tabulated against the reference on the fields of the grammar"""
+    c = cx.cls('timex_date_helpers', 'TimexDateHelpers')
     fn = cx.meth('timex_date_helpers', 'TimexDateHelpers', 'fixed_format_number')
-    ps = params_of(fn)
-    rets = [r for r in ast.walk(fn) if isinstance(r, ast.Return)]
-    form = None
-    if len(rets) == 1 and len(ps) == 2:
-        v = rets[0].value
-        if isinstance(v, ast.Call) and isinstance(v.func, ast.Attribute) and isinstance(v.func.value, ast.Call) \
-                and chain(v.func.value.func) == 'str' and chain(v.func.value.args[0]) == ps[0]:
-            if v.func.attr == 'rjust' and len(v.args) == 2 and chain(v.args[0]) == ps[1]:
-                form = ('rjust', const_str(v.args[1]))
-            elif v.func.attr == 'zfill' and len(v.args) == 1 and chain(v.args[0]) == ps[1]:
-                form = ('rjust', '0')
-            elif v.func.attr in ('ljust', 'center'):
-                form = (v.func.attr, const_str(v.args[1]) if len(v.args) > 1 else ' ')
-            elif v.func.attr == 'rjust' and len(v.args) == 1:
-                form = ('rjust', ' ')
-    if form is None:
-        raise AnalysisError('TimexDateHelpers.fixed_format_number: padding idiom not recognised')
-    chk.judge(form == ('rjust', '0'), 'C14.timeprop', cx.mods['timex_date_helpers'].path,
-              'TimexDateHelpers.fixed_format_number', '%s with %r' % form,
-              'fixed_format_number must left-pad with "0" to the width; it does %s with %r' % form, fn.lineno)
+    if len(params_of(fn)) != 2:
+        raise AnalysisError('TimexDateHelpers.fixed_format_number: expected the two parameters (n, size), found %r'
+                            % (params_of(fn),))
+    path = cx.mods['timex_date_helpers'].path
+    it = make_ointerp(cx, 'C14.pad')
+    for size, label, count, bad in tabulate_pad(it, c.mod, fn, c):
+        construct = 'TimexDateHelpers.fixed_format_number(n, %d) for %s' % (size, label)
+        if bad is None:
+            chk.ok('C14.pad', path, construct, 'digits of n left-padded with 0 to %d on %d values' % (size, count), fn.lineno)
+        else:
+            chk.bad('C14.pad', path, construct, 'n=%d -> %r' % bad[:2],
+                    'fixed_format_number(%d, %d) yields %r; the TIMEX field needs the decimal digits of n left-padded with '
+                    '"0" to %d characters, %r (first difference of %d values tabulated)'
+                    % (bad[0], size, bad[1], size, bad[2], count), fn.lineno)
+    # positive control: the same tabulation on embedded functions - one that forgets the width for small numbers (must
+    # be reported at size 4 only), one that pads in a loop (must pass)
+    chk.control('C14.pad', pad_control())
+
+
+PAD_CONTROL = """
+class Bad:
+    _T = [str(i).rjust(2, '0') for i in range(100)]
+
+    @staticmethod
+    def fixed_format_number(n, size):
+        if 0 <= n < len(Bad._T):
+            return Bad._T[n]
+        return str(n).rjust(size, '0')
+
+
+class Good:
+    @staticmethod
+    def fixed_format_number(n, size):
+        text = str(n)
+        while len(text) < size:
+            text = '0' + text
+        return text
+"""
+
+
+def pad_control():
+    from sa.index import Index, Mod
+
+    class _Cx:
+        pass
+    ix = Index.__new__(Index)
+    ix.mods, ix.by_path, ix.classes_by_name, ix.errors = {}, {}, {}, []
+    m = Mod('c14_pad_control', '<control:C14.pad>', ast.parse(PAD_CONTROL), PAD_CONTROL)
+    ix.mods[m.name] = m
+    ix._scan(m)
+    cx = _Cx()
+    cx.idx = ix
+    try:
+        it = make_ointerp(cx, 'C14.pad control')
+        bad = tabulate_pad(it, m, m.classes['Bad'].methods['fixed_format_number'], m.classes['Bad'])
+        good = tabulate_pad(it, m, m.classes['Good'].methods['fixed_format_number'], m.classes['Good'])
+    except AnalysisError:
+        return False
+    return [b[3] for b in bad] == [(1, '01', '0001'), None] and all(g[3] is None for g in good)
+
+
+def fresh_new_returns(fn):
+    """returns of a __new__: [(node, verdict, text)] with verdict 'fresh' (object.__new__ / super().__new__ result, directly
+    or through a local bound only to such calls), 'stored' (read out of a container / attribute / another call) or
+    'unread'"""
+    def is_fresh_call(e):
+        if not (isinstance(e, ast.Call) and isinstance(e.func, ast.Attribute) and e.func.attr == '__new__'):
+            return False
+        b = e.func.value
+        return (isinstance(b, ast.Name) and b.id == 'object') or \
+            (isinstance(b, ast.Call) and isinstance(b.func, ast.Name) and b.func.id == 'super')
+
+    binds = {}
+    for n in ast.walk(fn):
+        if isinstance(n, ast.Assign):
+            for t in n.targets:
+                for x in ast.walk(t):
+                    if isinstance(x, ast.Name) and isinstance(x.ctx, ast.Store):
+                        binds.setdefault(x.id, []).append(n.value if t is x else None)
+        elif isinstance(n, (ast.AugAssign, ast.AnnAssign, ast.NamedExpr)) and isinstance(n.target, ast.Name):
+            binds.setdefault(n.target.id, []).append(getattr(n, 'value', None) if not isinstance(n, ast.AugAssign) else None)
+        elif isinstance(n, (ast.For, ast.comprehension)):
+            for x in ast.walk(n.target):
+                if isinstance(x, ast.Name):
+                    binds.setdefault(x.id, []).append(None)
+        elif isinstance(n, ast.withitem) and n.optional_vars is not None:
+            for x in ast.walk(n.optional_vars):
+                if isinstance(x, ast.Name):
+                    binds.setdefault(x.id, []).append(None)
+    out = []
+    for r in ast.walk(fn):
+        if not isinstance(r, ast.Return):
+            continue
+        v = r.value
+        if v is None:
+            out.append((r, 'unread', 'bare return'))
+        elif is_fresh_call(v):
+            out.append((r, 'fresh', ast.unparse(v)))
+        elif isinstance(v, ast.Name) and v.id in binds and all(b is not None and is_fresh_call(b) for b in binds[v.id]):
+            out.append((r, 'fresh', ast.unparse(v)))
+        elif isinstance(v, (ast.Subscript, ast.Attribute, ast.Call, ast.Name)):
+            out.append((r, 'stored', ast.unparse(v)))
+        else:
+            out.append((r, 'unread', ast.unparse(v)))
+    return out
+
+
+def rule_fresh(cx, chk):
+    """every class of the package that Timex instantiates and whose instances it then mutates in place (a store through
+    a held object: getattr(self, '__time').hour = value) must construct a fresh object on every path"""
+    tcls = cx.cls('timex', 'Timex')
+    made, stores, any_attr = {}, set(), False
+    for mname, fn in tcls.methods.items():
+        for n in ast.walk(fn):
+            if isinstance(n, ast.Call):
+                if chain(n.func) == 'setattr' and len(n.args) == 3 and not isinstance(n.args[0], ast.Name):
+                    # setattr(getattr(self, '__time'), part, value): a store through a held object, attribute by name
+                    name = n.args[1].value if isinstance(n.args[1], ast.Constant) else None
+                    if isinstance(name, str):
+                        stores.add(name)
+                    else:
+                        any_attr = True
+                c = cx.idx.resolve_class(tcls.mod, n.func) if isinstance(n.func, (ast.Name, ast.Attribute)) else None
+                if c is not None and c is not tcls and (c.mod.name == PKG or c.mod.name.startswith(PKG + '.')):
+                    made.setdefault(c.qual, (c, n))
+            targets = n.targets if isinstance(n, ast.Assign) else [n.target] if isinstance(n, (ast.AugAssign, ast.AnnAssign)) \
+                else []
+            for t in targets:
+                if isinstance(t, ast.Attribute) and not isinstance(t.value, ast.Name):
+                    stores.add(t.attr)
+    n = 0
+    for qual, (c, site) in sorted(made.items()):
+        inst_attrs = set()
+        for k in cx.idx.mro(c):
+            for fn in k.methods.values():
+                for x in ast.walk(fn):
+                    if isinstance(x, ast.Attribute) and isinstance(x.ctx, ast.Store) and chain(x.value) == 'self':
+                        inst_attrs.add(x.attr)
+        mutated = sorted(inst_attrs if any_attr else inst_attrs & stores)
+        if not mutated:
+            continue
+        n += 1
+        construct = 'constructor of %s (Timex stores into .%s of an instance it holds)' % (c.name, ' .'.join(mutated))
+        if c.node.decorator_list or c.node.keywords or c.name in c.mod.assigns:
+            raise AnalysisError('%s:%d C14.fresh: class %s is decorated, has a metaclass or its name is rebound: what '
+                                'calling it returns is not read' % (c.mod.rel, c.node.lineno, c.name))
+        k, new = cx.idx.find_method(c, '__new__')
+        if new is None:
+            chk.ok('C14.fresh', c.mod.path, construct, 'no __new__: every call creates an object', c.node.lineno)
+            continue
+        rets = fresh_new_returns(new)
+        if not rets or any(v == 'unread' for _, v, _t in rets):
+            raise AnalysisError('%s:%d C14.fresh: %s.__new__ returns something this rule does not read'
+                                % (k.mod.rel, new.lineno, k.name))
+        stored = [(r, t) for r, v, t in rets if v == 'stored']
+        if not stored:
+            chk.ok('C14.fresh', k.mod.path, construct, '__new__ returns the result of object.__new__ on every path',
+                   new.lineno)
+        for r, t in stored:
+            chk.bad('C14.fresh', k.mod.path, construct, '__new__ returns ' + t,
+                    '%s.__new__ returns `%s`, an object that was stored earlier, not one created by this call: Timex keeps '
+                    'the instance and its setters store into .%s in place, so two Timex objects that are handed the same '
+                    'instance change each other (and __init__ runs again on it)' % (k.name, t, ' / .'.join(mutated)),
+                    r.lineno)
+    if not n:
+        raise AnalysisError('C14.fresh: Timex no longer instantiates a class of the package whose attributes it stores '
+                            'into in place (hour/minute/second plumbing restructured?)')
+    ctl = ast.parse("class Time:\n    _c = {}\n    def __new__(cls, h, m, s):\n        if m == 0 and s == 0:\n"
+                    "            try:\n                return cls._c[h]\n            except KeyError:\n"
+                    "                cls._c[h] = super().__new__(cls)\n                return cls._c[h]\n"
+                    "        return super().__new__(cls)\n").body[0].body[1]
+    ctl2 = ast.parse("def __new__(cls, *a):\n    inst = object.__new__(cls)\n    inst.seen = 0\n    return inst\n").body[0]
+    chk.control('C14.fresh', sorted(v for _, v, _t in fresh_new_returns(ctl)) == ['fresh', 'stored', 'stored']
+                and [v for _, v, _t in fresh_new_returns(ctl2)] == ['fresh'])
 
 
 def truthy_reads(fn, obj, fields):
@@ -2375,6 +2604,7 @@ def rule_falsy_zero(cx, chk, shapes):
     if not admits:
         raise AnalysisError('no zero-admitting field found in the grammar (hour/minute/second groups vanished?)')
     n = 0
+    roundtrip_ran = any(i.rule == 'C14.roundtrip' for i in chk.insts)
     for modname, clsname in (('timex_inference', 'TimexInference'), ('timex_format', 'TimexFormat')):
         c = cx.cls(modname, clsname)
         for mname, fn in c.methods.items():
@@ -2388,9 +2618,29 @@ def rule_falsy_zero(cx, chk, shapes):
                     n += 1
                     construct = '%s.%s reads %s.%s' % (clsname, mname.replace('_TimexInference', ''), obj, node.attr)
                     if kind == 'truth':
-                        chk.bad('C14.falsy0', c.mod.path, construct, 'truth value of %s' % node.attr,
-                                'the truth value of %s.%s is taken, but 0 is a valid %s (T00:00:00): a zero field is '
-                                'treated like a missing one' % (obj, node.attr, node.attr), node.lineno)
+                        # a truth test is a defect only where 0 and None (or 0 and non-zero) must be told apart: the
+                        # shape interpreter (C14.roundtrip, run before this rule) formats every none/zero/non-zero
+                        # assignment the parser can produce, so the test is blamed iff some shape with this field
+                        # at zero does not round-trip; `if timex.second:` to omit a zero component is the same
+                        # function as `!= 0` there and stays silent
+                        lostz = [i for i in chk.insts if i.rule == 'C14.roundtrip' and i.verdict == 'violation'
+                                 and re.search(r'\b%s=zero\b' % re.escape(node.attr), i.construct)]
+                        if not roundtrip_ran:
+                            if any(i.verdict == 'violation' for i in chk.insts):
+                                chk.observe('%s takes the truth value of %s; not judged, C14.roundtrip did not run on the '
+                                            'reported tree' % (construct, node.attr))
+                                continue
+                            raise AnalysisError('C14.falsy0 needs the verdicts of C14.roundtrip (rule order changed?)')
+                        if lostz:
+                            chk.bad('C14.falsy0', c.mod.path, construct, 'truth value of %s' % node.attr,
+                                    'the truth value of %s.%s is taken, but 0 is a valid %s (T00:00:00) and %d shape(s) with '
+                                    '%s = 0 do not round-trip (first: %s): a zero field is treated like a missing one'
+                                    % (obj, node.attr, node.attr, len(lostz), node.attr, lostz[0].construct), node.lineno)
+                        else:
+                            chk.exempt('C14.falsy0', c.mod.path, construct,
+                                       'truth value taken, but every shape with %s = 0 round-trips (C14.roundtrip): the test '
+                                       'is equivalent to an explicit comparison on all shapes the parser produces' % node.attr,
+                                       'truth value of %s' % node.attr, node.lineno)
                     else:
                         chk.ok('C14.falsy0', c.mod.path, construct, 'explicit comparison', node.lineno)
     # positive control
@@ -2428,10 +2678,16 @@ def run(chk):
     chk.rule('C14.from', 'from_date / from_date_time / from_time pass year,month,day,hour,minute,second homonymously',
              floor=12)
     chk.rule('C14.timeprop', 'hour/minute/second, run as properties: a value lands in its own component, the other two '
-                             'start at 0, None clears the time, two objects do not share their time of day; '
-                             'Time.__init__ stores homonymously; fixed_format_number left-pads with 0', floor=10)
+                             'start at 0, None clears the time, two objects do not share their time of day (also '
+                             'when both start from the same value); Time.__init__ stores homonymously', floor=10)
+    chk.rule('C14.pad', 'TimexDateHelpers.fixed_format_number, interpreted as written and tabulated over years 1..9999 at '
+                        'width 4 and the two-digit fields 0..59 at width 2, yields the decimal digits left-padded with "0"',
+             floor=2, control=True)
     chk.rule('C14.shared', 'no mutable default argument (object created once at definition time) is stored into an '
                            'attribute', floor=3, control=True)
+    chk.rule('C14.fresh', 'a class whose instances Timex holds and stores into in place (Time behind hour/minute/second) '
+                          'constructs a fresh object on every path: no __new__ that returns a stored instance', floor=1,
+             control=True)
     chk.rule('C14.fromvalue', 'from_time / from_date / from_date_time, run on a grid of values, yield the canonical TIMEX',
              floor=3)
     chk.rule('C14.amount', 'the stored duration amount, as str() prints it, lies in the amount group and denotes the '
@@ -2444,7 +2700,8 @@ def run(chk):
     chk.rule('C14.duration', 'concrete round trip: a Timex with one duration field set (probe amounts incl. fractions) is '
                              'formatted and parsed again by the interpreted code; the same field and amount come back',
              floor=7)
-    chk.rule('C14.falsy0', 'no truthiness test on hour/minute/second in TimexInference / TimexFormat', floor=3,
+    chk.rule('C14.falsy0', 'no truthiness test on hour/minute/second in TimexInference / TimexFormat that loses a shape '
+                           'with that field at 0 (blamed through the verdicts of C14.roundtrip)', floor=3,
              control=True)
     chk.assume('digit groups hold valid calendar values (the checker does not bound month to 12 etc.); only hour, '
                'minute and second can legitimately be 0')
@@ -2456,14 +2713,15 @@ def run(chk):
     rule_wiring(cx, chk)
     rule_time_plumbing(cx, chk)
     rule_shared(cx, chk)
+    rule_fresh(cx, chk)
     rule_fromvalue(cx, chk)
-    rule_falsy_zero(cx, chk, shapes)
     chk.extra['shapes'] = len(shapes)
     chk.extra['templates'] = len(templates)
     rule_split(cx, chk, fams)
     rule_duration(cx, chk)
     chk._c14 = (cx, fams, shapes, templates)
     rule_roundtrip(chk)
+    rule_falsy_zero(cx, chk, shapes)        # after C14.roundtrip: it reads that rule's verdicts
     if any(i.rule == 'C14.groups' and i.verdict == 'violation' for i in chk.insts):
         # shapes with a reported violation are not carried on; floors only guard against vacuous passes and this run
         # cannot pass any more
@@ -2822,7 +3080,7 @@ class Interp:
         if isinstance(fv, FuncRef):
             c, fn = fv.c, fv.fn
             if c is not None and fn.name == 'fixed_format_number' and len(args) == 2 and isinstance(args[1], int):
-                return TplV(self.to_toks(args[0], mod, e, args[1]))   # body checked by C14.timeprop
+                return TplV(self.to_toks(args[0], mod, e, args[1]))   # body checked by C14.pad
             return self.call_fn(c, fn, args, mod, e, fv.mod)
         self.err(mod, e, 'call of %s not modelled' % type(fv).__name__)
 
@@ -2855,6 +3113,14 @@ class Interp:
                 self.block(st.body if self.truth(self.ev(st.test, env, mod), mod, st.test) else st.orelse, env, mod)
             elif isinstance(st, ast.Assign) and len(st.targets) == 1 and isinstance(st.targets[0], ast.Name):
                 env[st.targets[0].id] = self.ev(st.value, env, mod)
+            elif isinstance(st, ast.AugAssign) and isinstance(st.target, ast.Name):
+                # `x += e` on a local is `x = x + e` (strings / templates are immutable values here; lists are rebuilt
+                # by ev, so no aliasing is lost); operators other than those ev models fail closed there
+                if st.target.id not in env:
+                    self.err(mod, st, 'augmented assignment to the unbound local %s' % st.target.id)
+                both = ast.copy_location(ast.BinOp(left=ast.copy_location(ast.Name(id=st.target.id, ctx=ast.Load()), st),
+                                                   op=st.op, right=st.value), st)
+                env[st.target.id] = self.ev(both, env, mod)
             elif isinstance(st, ast.Expr):
                 if isinstance(st.value, ast.Constant):
                     continue
